@@ -778,7 +778,17 @@ func (p *c14) metadata(x *res, adapter string, ctx *runner.Ctx) {
 	describe := func(cl adapt.Client) string {
 		d := cl.Do(adapt.Op{Kind: adapt.OpDescribe, Table: spec.Name})
 		b, _ := json.Marshal(d)
-		return string(b)
+		// ... and EVERY field of the raw description the library returns (attribute definitions, billing, whatever a
+		// later version reports), its lists compared as sets: the order of indexes in a description is not fixed
+		raw := ""
+		if adapter == "v1" {
+			if out, err := cl.Raw().(*v1client.Client).DescribeTable(&v1ddb.DescribeTableInput{TableName: aws.String(spec.Name)}); err == nil {
+				raw = unorderedString(reflect.ValueOf(out), 0)
+			}
+		} else if out, err := cl.Raw().(*v2client.Client).DescribeTable(context.Background(), &v2ddb.DescribeTableInput{TableName: v2aws.String(spec.Name)}); err == nil {
+			raw = unorderedString(reflect.ValueOf(out.Table), 0)
+		}
+		return string(b) + "\n" + raw
 	}
 	stages := []stage{
 		{"input/CreateTable", func(cl adapt.Client) (interface{}, bool) {
